@@ -82,13 +82,16 @@ def base_lines(name, perturb=None):
     perturb = ("anon", 0) gives every residue a name the reader cannot resolve ("N7"), so that the base
     letter of each residue has to be detected from its atoms (MD / modelling output looks like this);
     perturb = ("legacy", 0) writes the pre-2007 atom names (O1P, O2P, C5M, * for the prime) - whatever the
-    library makes of them, it must make the same of them in both file formats."""
+    library makes of them, it must make the same of them in both file formats;
+    perturb = ("thio", 0) turns every uridine into a 4-thiouridine (a modified residue whose atoms fit two bases
+    equally well: its letter rests on the name, or on the describing records)."""
     from rnapolis import parser
     with open(os.path.join(lib.REPO, "tests", name)) as f:
         s = parser.read_3d_structure(f)
     anon = bool(perturb) and perturb[0] == "anon"
     legacy = bool(perturb) and perturb[0] == "legacy"
-    rng = random.Random(perturb[0]) if perturb and not anon and not legacy else None
+    thio = bool(perturb) and perturb[0] == "thio"       # uridines become 4-thiouridines (4SU: S4 in place of O4)
+    rng = random.Random(perturb[0]) if perturb and not anon and not legacy and not thio else None
     lines = []
     for r in s.residues:
         if r.auth is None or len(r.auth.chain) != 1 or not (-900 < r.auth.number < 8900) or len(r.auth.name) > 3:
@@ -101,9 +104,11 @@ def base_lines(name, perturb=None):
             xyz = [int(round(v * 1000)) for v in (a.x, a.y, a.z)]
             if rng:
                 xyz = [v + int(round(rng.gauss(0, perturb[1]))) for v in xyz]
+            is4su = thio and r.auth.name == "U"
             lines.append({"m": 1, "het": 0, "ch": r.auth.chain, "num": r.auth.number, "ic": r.auth.icode or "",
-                          "rn": "N7" if anon else r.auth.name,
-                          "an": {"OP1": "O1P", "OP2": "O2P", "C7": "C5M"}.get(a.name, a.name.replace("'", "*")) if legacy else a.name, "alt": "", "occ": 100, "x": xyz[0], "y": xyz[1], "z": xyz[2]})
+                          "rn": "N7" if anon else "4SU" if is4su else r.auth.name,
+                          "an": {"OP1": "O1P", "OP2": "O2P", "C7": "C5M"}.get(a.name, a.name.replace("'", "*")) if legacy
+                          else "S4" if is4su and a.name == "O4" else a.name, "alt": "", "occ": 100, "x": xyz[0], "y": xyz[1], "z": xyz[2]})
     return lines
 
 
@@ -159,12 +164,80 @@ def icode_pattern(lines, k):
     return out
 
 
+STANDARD_NAMES = {"A", "C", "G", "U", "DA", "DC", "DG", "DT"}
+
+
+def with_records(fmt, out, info):
+    """Text of the presented lines `out` (each carries "_k", the key of its residue in the base) together with
+    the records that DESCRIBE the polymer: mmCIF - one polymer entity per chain with the canonical one-letter
+    sequence, label_seq_id counting the nucleotides of the chain, non-nucleotides in a non-polymer entity,
+    pdbx_struct_mod_residue rows for non-standard names; PDB - MODRES records.  info[key] = (is_nucleotide,
+    letter) as the reader saw the base without any such record."""
+    if fmt == "pdb":
+        text = atomtable.emit_pdb(out).split("\n")
+        mod, seen = [], set()
+        for ln in out:
+            key = (ln["ch"], ln["num"], ln["ic"])
+            nuc, letter = info[ln["_k"]]
+            if key in seen or not nuc or ln["rn"] in STANDARD_NAMES:
+                continue
+            seen.add(key)
+            std = ("D" + letter) if ln["rn"].startswith("D") and len(ln["rn"]) == 2 else letter
+            mod.append(f"MODRES XXXX {ln['rn']:>3} {ln['ch']} {ln['num']:>4}{ln['ic'] or ' '} {std:>3}  MODIFIED NUCLEOTIDE".ljust(80))
+        return "\n".join(text[:2] + mod + text[2:])
+    chains, seqs, modrows = [], {}, []
+    lines2 = []
+    for ln in out:
+        nuc, letter = info[ln["_k"]]
+        n = dict(ln)
+        if nuc:
+            if ln["ch"] not in chains:
+                chains.append(ln["ch"])
+                seqs[ln["ch"]] = []
+            key = (ln["num"], ln["ic"])
+            if not seqs[ln["ch"]] or seqs[ln["ch"]][-1][0] != key:
+                seqs[ln["ch"]].append((key, letter, ln["rn"]))
+                if ln["rn"] not in STANDARD_NAMES:
+                    modrows.append([str(len(modrows) + 1), ln["ch"], ln["rn"], str(len(seqs[ln["ch"]])), ln["ch"], ln["rn"],
+                                    str(ln["num"]), ln["ic"] or "?", letter])
+            n.update(lent=chains.index(ln["ch"]) + 1, lnum=len(seqs[ln["ch"]]), lch=ln["ch"])
+        else:
+            n.update(lent=0, lnum=0, lch=ln["ch"])
+        lines2.append(n)
+    nonpoly = len(chains) + 1
+    for n in lines2:
+        if n["lent"] == 0:
+            n["lent"] = nonpoly
+    text = atomtable.emit_cif(lines2)
+    ext = ["loop_", "_entity.id", "_entity.type"] + [f"{k + 1} polymer" for k in range(len(chains))]
+    if any(n["lent"] == nonpoly for n in lines2):
+        ext.append(f"{nonpoly} non-polymer")
+    ext += ["#", "loop_", "_entity_poly.entity_id", "_entity_poly.type", "_entity_poly.pdbx_seq_one_letter_code_can"]
+    for k, ch in enumerate(chains):
+        dna = sum(1 for _, _, rn in seqs[ch] if rn.startswith("D") and len(rn) == 2) * 2 > len(seqs[ch])
+        ext.append(f"{k + 1} {'polydeoxyribonucleotide' if dna else 'polyribonucleotide'} {''.join(x for _, x, _ in seqs[ch])}")
+    ext.append("#")
+    if modrows:
+        ext += ["loop_"] + ["_pdbx_struct_mod_residue." + c for c in
+                            ("id", "label_asym_id", "label_comp_id", "label_seq_id", "auth_asym_id", "auth_comp_id",
+                             "auth_seq_id", "PDB_ins_code", "parent_comp_id")]
+        ext += [" ".join(r) for r in modrows] + ["#"]
+    return text + "\n".join(ext) + "\n"
+
+
 class Presenter:
     def __init__(self, lines):
         self.lines = lines
         self.cmap = chain_map(lines)
         self.base_obj = _read_text("cif", atomtable.emit("cif", lines))
         self.icp = {}
+        # what the reader made of every residue WITHOUT describing records (the reference the records must agree
+        # with); a base in which some nucleotide has no plain letter cannot be described by a canonical sequence
+        self.info = {}
+        for r in self.base_obj.residues:
+            self.info[(r.auth.chain, r.auth.number, r.auth.icode or "")] = (bool(r.is_nucleotide), r.one_letter_name)
+        self.describable = all(x in "ACGUT" for nuc, x in self.info.values() if nuc) and \
+            len(self.info) == len(_groups(lines))
 
     def icodes(self, k):
         if k not in self.icp:
@@ -194,8 +267,10 @@ class Presenter:
                     n = dict(ln)
                     num2, ic2 = icp[(ln["ch"], ln["num"], ln["ic"])]
                     n.update(x=int(v[0]), y=int(v[1]), z=int(v[2]), num=num2 + dn, ic=ic2,
-                             ch=self.cmap[ln["ch"]] if st["chains"] else ln["ch"])
+                             ch=self.cmap[ln["ch"]] if st["chains"] else ln["ch"], _k=(ln["ch"], ln["num"], ln["ic"]))
                     out.append(n)
+            if st.get("records") and self.describable:
+                return _read_text(st["fmt"], with_records(st["fmt"], out, self.info)), inv
             return _read_text(st["fmt"], atomtable.emit(st["fmt"], out)), inv
         # in-memory object: exact float transformation of the base object
         from rnapolis.tertiary import Residue3D, Structure3D
@@ -282,7 +357,7 @@ def record(case):
         _PRES[key] = (pr, [_nano(M["min_margin"]["distance"]), _nano(M["min_margin"]["angle"])])
     pr, margin = _PRES[key]
     c["margin"] = margin
-    st = {"motion": [], "atomOrder": 0, "chains": 0, "shift": 0, "icodes": 0, "fmt": case["fmt0"]}
+    st = {"motion": [], "atomOrder": 0, "chains": 0, "shift": 0, "icodes": 0, "records": 0, "fmt": case["fmt0"]}
     states = []
 
     def snap():
@@ -314,6 +389,8 @@ def record(case):
             st["icodes"] = a
         elif op == "SwitchFormat":
             st["fmt"] = ["obj", "pdb", "cif"][a]
+        elif op == "ToggleRecords":
+            st["records"] = a
         snap()
     c["states"] = states
     return c
